@@ -91,7 +91,7 @@ the admission error is present after the creation step, then every task of `task
 unfinished and has no deletion timestamp gets a graceful delete call in this very pass. -/
 theorem decided_then_kill_pass (s : Sys) (jo : JobObj) (rj rjOut : Job)
     (hok : (syncJobTasks s jo rj).2 = some rjOut) :
-    ∃ s1 rj1 tasks1, syncCreateTasks s jo rj (tasks0 s rj) = (s1, some (rj1, tasks1)) ∧
+    ∃ s1 rj1 tasks1, syncCreateTasks s jo rj (tasks0 s jo rj) = (s1, some (rj1, tasks1)) ∧
       (shouldKillJobForParallel (updateTaskRefStatus s1 (jobKey jo) rj1 tasks1).2 = true ∨ rj1.admissionError = true →
         ∀ t ∈ tasks1, isTaskFinished t = false → t.deletionTimestamp = none →
           ∃ c ∈ newCalls s (syncJobTasks s jo rj).1,
@@ -124,7 +124,7 @@ example :
     (syncJobTasks s ⟨"job", "u", anyJob, true, 1⟩ anyJob).2.isSome = true ∧
     (newCalls s (syncJobTasks s ⟨"job", "u", anyJob, true, 1⟩ anyJob).1).map brief =
       [("delete", "pods", "job-b-0", "ok", false)] ∧
-    shouldKillJobForParallel (updateTaskRefStatus s "ns/job" anyJob (tasks0 s anyJob)).2 = true := by
+    shouldKillJobForParallel (updateTaskRefStatus s "ns/job" anyJob (tasks0 s ⟨"job", "u", anyJob, true, 1⟩ anyJob)).2 = true := by
   decide
 
 /-- **`decided_then_kill_covers_unrecorded`** (repair of F23).  Pass level, on the cached Job: when
@@ -139,20 +139,20 @@ graceful delete call in that very pass.  Before the repair a complete summary re
 it was: the unrecorded task was never stopped and the Job was reported finished while it ran. -/
 theorem decided_then_kill_covers_unrecorded (s : Sys) (jo : JobObj) (rjOut : Job)
     (hok : (syncJobTasks s jo jo.job).2 = some rjOut)
-    (hstop : canCreateTask jo.job = false ∨ (refreshedSummary s jo.job (tasks0 s jo.job)).complete = true) :
-    syncCreateTasks s jo jo.job (tasks0 s jo.job) =
-      (s, some (jo.job, adoptUnrecordedTasks s jo (tasks0 s jo.job))) ∧
+    (hstop : canCreateTask jo.job = false ∨ (refreshedSummary s jo.job (tasks0 s jo jo.job)).complete = true) :
+    syncCreateTasks s jo jo.job (tasks0 s jo jo.job) =
+      (s, some (jo.job, adoptUnrecordedTasks s jo (tasks0 s jo jo.job))) ∧
     (shouldKillJobForParallel
-        (updateTaskRefStatus s (jobKey jo) jo.job (adoptUnrecordedTasks s jo (tasks0 s jo.job))).2 = true ∨
+        (updateTaskRefStatus s (jobKey jo) jo.job (adoptUnrecordedTasks s jo (tasks0 s jo jo.job))).2 = true ∨
       jo.job.admissionError = true →
       ∀ p ∈ s.podCache, p.jobLabel = some jo.uid → p.ownerUid = some jo.uid →
         (∀ r ∈ jo.job.status.tasks, r.name ≠ p.pod.name) →
         ∀ t, podTask p = some t → isTaskFinished t = false → t.deletionTimestamp = none →
           ∃ c ∈ newCalls s (syncJobTasks s jo jo.job).1,
             c.verb = "delete" ∧ c.res = "pods" ∧ c.force = false ∧ c.name = p.pod.name) := by
-  have hcr : syncCreateTasks s jo jo.job (tasks0 s jo.job) =
-      (s, some (jo.job, adoptUnrecordedTasks s jo (tasks0 s jo.job))) := by
-    obtain ⟨_, _, hoff, hdone, _⟩ := syncCreateTasks_ext s jo jo.job (tasks0 s jo.job)
+  have hcr : syncCreateTasks s jo jo.job (tasks0 s jo jo.job) =
+      (s, some (jo.job, adoptUnrecordedTasks s jo (tasks0 s jo jo.job))) := by
+    obtain ⟨_, _, hoff, hdone, _⟩ := syncCreateTasks_ext s jo jo.job (tasks0 s jo jo.job)
     by_cases hcan : canCreateTask jo.job = true
     · rcases hstop with h | h
       · rw [hcan] at h; cases h
@@ -164,7 +164,7 @@ theorem decided_then_kill_covers_unrecorded (s : Sys) (jo : JobObj) (rjOut : Job
   rw [hcr] at hc
   simp only [Prod.mk.injEq, Option.some.injEq] at hc
   obtain ⟨rfl, rfl, rfl⟩ := hc
-  have hmem : t ∈ adoptUnrecordedTasks s jo (tasks0 s jo.job) := by
+  have hmem : t ∈ adoptUnrecordedTasks s jo (tasks0 s jo jo.job) := by
     refine (mem_adoptUnrecordedTasks s jo _ t).mpr (Or.inr ⟨p, hp, hpt, hl, ho, ?_, hu⟩)
     intro t0 ht0 hn
     obtain ⟨r, hr, hrn⟩ := tasksForRefs_name ht0
@@ -181,7 +181,7 @@ example :
     let j : Job := { anyJob with status := { anyJob.status with tasks := anyJob.status.tasks.filter (·.name = "job-b-0") } }
     let jo : JobObj := ⟨"job", "u", j, true, 1⟩
     let s : Sys := { clock := sec 60, d := { hash := "d" }, pods := [pa, pb], podCache := [pa, pb] }
-    (refreshedSummary s j (tasks0 s j)).complete = true ∧ canCreateTask j = true ∧
+    (refreshedSummary s j (tasks0 s jo j)).complete = true ∧ canCreateTask j = true ∧
     (syncJobTasks s jo j).2.isSome = true ∧
     (newCalls s (syncJobTasks s jo j).1).map brief = [("delete", "pods", "job-a-0", "ok", false)] := by
   decide
@@ -199,7 +199,7 @@ example :
     let pa := mkPod "job-a-0" "a" .running none
     let pb := mkPod "job-b-0" "b" .running none
     let s : Sys := { clock := sec 60, d := { hash := "d" }, pods := [pa, pb], podCache := [pa, pb] }
-    ((updateTaskRefStatus s "ns/job" anyJob (tasks0 s anyJob)).2.status.parallelStatus.map (·.summary.complete)) =
+    ((updateTaskRefStatus s "ns/job" anyJob (tasks0 s ⟨"job", "u", anyJob, true, 1⟩ anyJob)).2.status.parallelStatus.map (·.summary.complete)) =
       some false := by
   decide
 
